@@ -252,13 +252,14 @@ def run(ctx):
 
     maxw = ctx.pick(25, 120)
     NSH = 4
-    totals = {"mutants": 0, "accepted": 0, "live": 0, "skipped": 0}
+    totals = {"mutants": 0, "accepted": 0, "live": 0, "skipped": 0, "shards_completed": 0, "shards": 0}
     nrp = []
 
     def mut_shard(k):
         shard = mcases[k::NSH]
         if not shard:
             return
+        totals["shards"] += 1
         mp = os.path.join(d, "mcases%d.json" % k)
         json.dump(shard, open(mp, "w"))
         mo = os.path.join(d, "mut-out%d.ndjson" % k)
@@ -267,6 +268,7 @@ def run(ctx):
         os.remove(mo)
         for e in evs:
             if e["ev"] == "mutsummary":
+                totals["shards_completed"] += 1
                 totals["mutants"] += e["mutants"]
                 totals["accepted"] += e["accepted"]
                 totals["live"] += e.get("live", 0)
@@ -292,10 +294,15 @@ def run(ctx):
         ctx.sample({"recorded_events": first_sample[0]})
     ctx.cov["fresh_calls_that_rewrote_the_input"] = {"gtab.Context": "%d of %d" % (live[1][1], live[1][0]),
                                                      "sfnt.Layouter": "%d of %d" % (live[2][1], live[2][0])}
-    if live[1][1] * 10 < live[1][0] or live[2][1] * 10 < live[2][0]:
+    if not ctx.violations and (live[1][1] * 10 < live[1][0] or live[2][1] * 10 < live[2][0]):
         raise vlib.Infra("shaping objects are vacuous subjects: %s" % ctx.cov["fresh_calls_that_rewrote_the_input"])
     ctx.cov["mutants"] = dict(totals, ev="mutsummary")
-    if totals["live"] * 4 < totals["accepted"] or not totals["live"] or totals["skipped"] * 4 > len(mcases):
+    # a harness process ends at the first call that hangs (the call is recorded and judged above); the liveness
+    # counts are only meaningful when every shard ran to its end
+    if totals["shards_completed"] < totals["shards"]:
+        ctx.notes.append("%d of %d mutant shards ended early at a hanging call" % (
+            totals["shards"] - totals["shards_completed"], totals["shards"]))
+    elif totals["live"] * 4 < totals["accepted"] or not totals["live"] or totals["skipped"] * 4 > len(mcases):
         raise vlib.Infra("reader-delivered tables are vacuous: only %d of %d accepted mutants have lookups, %d of %d "
                          "subjects do not read back unmutated" % (totals["live"], totals["accepted"], totals["skipped"], len(mcases)))
     if nrp:
